@@ -732,6 +732,61 @@ func c10JT808(c *core.Collector, x *Ctx, parsing bool) {
 		}(a)
 	}
 	awg.Wait()
+	// reassembled messages beyond 65535 bytes: consistent lists of tens of thousands of entries sent as up to 255 sub-packages
+	// (hostile only in size: every field is well-formed). With a command outstanding for the response types, so that the
+	// default server parses them too.
+	{
+		bigs := gen.BigCases(gen.G{Rand: core.NewRand(c.Seed, "c10big", uint64(x.Batch))})
+		nbig := 0
+		for bi, tc := range bigs {
+			if bi%2 != x.Batch%2 && !c.Thorough() {
+				continue
+			}
+			body := tc.Val.Encode()
+			part := 1010
+			N := (len(body) + part - 1) / part
+			if N > 255 || N < 2 {
+				continue
+			}
+			t, err := svc.Dial(srv.Addr, bi%2 == 1, fmt.Sprintf("665%d", bi%5))
+			if err != nil {
+				c.Violate("accept|new connection refused while hostile connections were served", "big reassembled message", nil)
+				break
+			}
+			t.Write(t.Frame(0x0002, 1, nil))
+			t.Next(5 * time.Second)
+			// wait (bounded) for a platform command to this key and echo its serial in the response's first two bytes
+			if tc.ID == 0x0805 || tc.ID == 0x1205 {
+				for k := 0; k < 20; k++ {
+					rx, ok, to := t.Next(100 * time.Millisecond)
+					if to || !ok {
+						break
+					}
+					if rx.F != nil && rx.F.ID != 0x8001 {
+						body[0], body[1] = byte(rx.F.Serial>>8), byte(rx.F.Serial)
+						break
+					}
+				}
+			}
+			x.Journal.Log(true, "big reassembled %s: %d bytes in %d sub-packages", tc.Name, len(body), N)
+			var all []byte
+			for k := 1; k <= N; k++ {
+				all = append(all, t.SubFrame(tc.ID, uint16(100+k), uint16(N), uint16(k), body[(k-1)*part:min(k*part, len(body))])...)
+			}
+			t.Write(all)
+			time.Sleep(30 * time.Millisecond)
+			t.Close()
+			nbig++
+			c.Eval()
+			if ok, to := c10Probe(srv.Addr, x.Batch*100000+90000+bi); to {
+				c.Inconclusive()
+			} else if !ok {
+				c.Violate("probe|a fresh connection was not served correctly after hostile connections", "after a reassembled message of "+fmt.Sprint(len(body))+" bytes ("+tc.Name+")", nil)
+				break
+			}
+		}
+		c.Count("reassembled_messages_beyond_65535_bytes", int64(nbig))
+	}
 	// many simultaneous connects
 	var cwg sync.WaitGroup
 	for i := 0; i < 64; i++ {
